@@ -113,6 +113,7 @@ pub fn child(args: &[String]) -> i32 {
         "c18" => c18::child_main(&args[1..]),
         "c18seq" => c18::child_seq(&args[1..]),
         "c18both" => c18::child_both(&args[1..]),
+        "c18cfg" => c18::child_cfg(&args[1..]),
         "c16" => c16::child_main(&args[1..]),
         "c08crash" => c08::child_crash(&args[1..]),
         "c08global" => c08::child_global(&args[1..]),
